@@ -949,6 +949,13 @@ pixman_image_fill_boxes (pixman_op_t           op,
                     return FALSE;
             }
 
+            /* Compositing clips to the image; so must the shortcut */
+            if (!pixman_region32_intersect_rect (&fill_region, &fill_region,
+                                                 0, 0,
+                                                 dest->bits.width,
+                                                 dest->bits.height))
+                return FALSE;
+
             rects = pixman_region32_rectangles (&fill_region, &n_rects);
             for (j = 0; j < n_rects; ++j)
             {
